@@ -72,13 +72,20 @@ X4 == St(<<F("A", 1, "intern", StrT), F("B", 2, "intern", StrT)>>)
 X4Vals == << <<<<>>, <<>>>>, <<Hat, CatS>>, <<CatS, Hat>>, <<Hat, Hat>> >>
 X5 == [k |-> "slice", e |-> X1]
 X5Vals == << [nil |-> TRUE, e |-> <<>>], [nil |-> FALSE, e |-> <<XVals[2], XVals[3], XVals[2], XVals[1]>>] >>
+\* interned fields of different kinds in one struct (string and null.String, both orders), next to a plain field
+NStrT == [k |-> "null", of |-> "string"]
+X6 == St(<<F("S", 1, "intern", StrT), F("N", 2, "intern", NStrT), F("Flag", 3, "", [k |-> "bool"])>>)
+X7 == St(<<F("N", 1, "intern", NStrT), F("S", 2, "intern", StrT), F("Flag", 3, "", [k |-> "bool"])>>)
+X6Vals == << <<<<>>, NS(FALSE, <<>>), FALSE>>, <<Hat, NS(TRUE, <<>>), FALSE>>, <<CatS, NS(TRUE, Hat), TRUE>>, <<<<>>, NS(TRUE, CatS), FALSE>> >>
+X7Vals == << <<NS(FALSE, <<>>), <<>>, FALSE>>, <<NS(TRUE, <<>>), Hat, FALSE>>, <<NS(TRUE, Hat), CatS, TRUE>>, <<NS(TRUE, CatS), <<>>, FALSE>> >>
 MCCat19 == << [T |-> X1, vals |-> XVals, cfg |-> "default"], [T |-> X2, vals |-> XVals, cfg |-> "default"],
               [T |-> X3, vals |-> X3Vals, cfg |-> "default"], [T |-> X4, vals |-> X4Vals, cfg |-> "default"],
-              [T |-> X5, vals |-> X5Vals, cfg |-> "default"] >>
+              [T |-> X5, vals |-> X5Vals, cfg |-> "default"] ,
+              [T |-> X6, vals |-> X6Vals, cfg |-> "default"], [T |-> X7, vals |-> X7Vals, cfg |-> "default"] >>
 \* the option changes neither the encoding nor what is decoded (the model has no interning at all: that is the specification)
 InternTransparent == \A j \in 1..Len(XVals) : Encode(Cfg0, Bake(X1, ""), XVals[j]) = Encode(Cfg0, Bake(X2, ""), XVals[j])
-Quick19 == {1, 3, 4}
-Thorough19 == {1, 2, 3, 4, 5}
+Quick19 == {1, 3, 6}
+Thorough19 == {1, 2, 3, 4, 5, 6, 7}
 
 \* ---- C17: the same types used through instances with different options and registrations ----
 MkT == [k |-> "marked"]
